@@ -3,7 +3,7 @@
    copy at offset L, gringo's unknown-atom simplification) and Spec/DefElim.v (the auxiliary __future_p atoms of future
    heads with their defining rules, bridge rules and assumptions are a definitional extension). *)
 From Coq Require Import List Bool Arith ZArith Lia.
-Require Import HT TEL TELext DecP DefElim Window GenPrelude FromSource Leaf_imain.
+Require Import HT TEL TELext DecP DefElim Window GenPrelude FromSource Loop Leaf_imain LoopProofs.
 
 (* The instances accumulated by the incremental run of steps 0..h for look-ahead constraints (any depth, any part) are
    satisfied exactly if every constraint holds, read with atoms beyond h false, at every admissible position k <= h:
@@ -53,6 +53,28 @@ Proof. exact assume_false_gen_spec. Qed.
 Theorem C02_window_parts : forall r s i, part_selected_gen r s i = Some (part_sel r s i) /\
   part_params_gen s i = (Some (Z.of_nat s - Z.of_nat i)%Z, Some (Z.of_nat s)).
 Proof. intros r s i. split; [exact (part_selected_gen_spec r s i)|exact (part_params_gen_spec s i)]. Qed.
+(* The solving loop (model of imain over the REGENERATED part selection) grounds, for the two program parts that the
+   transformer emits for a look-ahead constraint of depth L in part p - the temporary part with offsets 0..L-1 and the
+   permanent part with offset L - exactly the instances of the window model above: at step s the temporary copy with
+   parameters (t,u) = (s-i, s) for every offset i < L whose position s-i is admissible, and the permanent copy with
+   (s-L, s) if position s-L is admissible. *)
+Definition root_of_part (p : spart) : root := match p with Always => RAlways | Dynamic => RDynamic | Initial => RInitial end.
+Lemma part_sel_window p s i : part_sel (root_of_part p) s i = (i <=? s) && selected p (s - i).
+Proof.
+  destruct p; cbn [root_of_part part_sel selected].
+  - destruct (Nat.leb_spec i s); destruct (Nat.eqb_spec i s); destruct (Nat.eqb_spec (s - i) 0); cbn; try reflexivity; lia.
+  - now rewrite andb_true_r.
+  - destruct (Nat.leb_spec i s); destruct (Nat.ltb_spec i s); destruct (Nat.ltb_spec 0 (s - i)); cbn; try reflexivity; lia.
+Qed.
+Theorem C02_loop_grounds_window : forall (p : spart) (tmp perm : string) (L s : nat),
+  sel_parts_spec [(root_of_part p, tmp, seq 0 L); (root_of_part p, perm, [L])] s =
+  (map (fun i => (tmp, (Z.of_nat s - Z.of_nat i)%Z, Z.of_nat s)) (filter (fun i => (i <=? s) && selected p (s - i)) (seq 0 L))
+   ++ (if (L <=? s) && selected p (s - L) then [(perm, (Z.of_nat s - Z.of_nat L)%Z, Z.of_nat s)] else []))%list.
+Proof.
+  intros p tmp perm L s. unfold sel_parts_spec. cbn [flat_map]. rewrite app_nil_r. unfold sel_rng_spec. f_equal.
+  - f_equal. apply filter_ext. intros i. apply part_sel_window.
+  - cbn [filter]. rewrite part_sel_window. destruct ((L <=? s) && selected p (s - L)); reflexivity.
+Qed.
 Print Assumptions C02_window_exact.
 Print Assumptions C02_temporary_copy_live.
 Print Assumptions C02_no_stale_instance.
@@ -61,3 +83,4 @@ Print Assumptions C02_future_aux_elim_forward.
 Print Assumptions C02_future_aux_elim_backward.
 Print Assumptions C02_assumption_filter.
 Print Assumptions C02_window_parts.
+Print Assumptions C02_loop_grounds_window.
